@@ -179,6 +179,11 @@ impl Read for Script {
 impl Script {
     fn read_inner(&mut self, buf: &mut [u8]) -> io::Result<usize> {
         self.read_calls += 1;
+        if self.read_calls > 20000 {
+            // watchdog: no modelled call makes this many transport reads; a spin would otherwise hang the harness
+            self.log.push("R:BUDGET".into());
+            panic!("transport read budget exceeded (unbounded work)");
+        }
         self.max_read_buf = self.max_read_buf.max(buf.len());
         match self.rds.pop_front() {
             None => {
